@@ -1,2 +1,26 @@
-(* C09 - placeholder until the writer line-accounting model is in place (DESIGN 4/C09). *)
-From ES Require Import Base.
+(* C09 - decompile-time source map.  Proved about the writer both decompilers share (Dec/Writer.v, tied to the
+   real write_stmnt / write_line / source_map_add_opcode by correspondence): the hand-advanced line counter is in
+   step with the text whatever is written (multi-line strings included), and an entry recorded before a statement
+   gives the line and column at which that statement begins.  Which op an entry is recorded for, and that every
+   printed op gets one, is decided on the real decompiler (harness/checks/c09.py). *)
+From ES Require Import Base Dec.Writer Dec.WriterProofs.
+
+Theorem C09_line_counter_in_step : forall ops prefix,
+  line (wrun ops (winit prefix)) = S (count_lf (out (wrun ops (winit prefix)))).
+Proof. exact line_counter_in_step. Qed.
+Print Assumptions C09_line_counter_in_step.
+
+Theorem C09_entry_points_at_statement : forall ops prefix off s later,
+  let w := wrun ops (winit prefix) in
+  let w' := wstep (wstep w (WAdd off false)) (WStmnt s true) in
+  exists ln col, last (entries w') (0%Z, 0, 0) = (off, ln, col) /\
+                 locate (out w' ++ later) ln col = Some (s ++ later).
+Proof. intros. apply entry_points_at_statement. apply line_counter_in_step. Qed.
+Print Assumptions C09_entry_points_at_statement.
+
+(* non-vacuity: a statement holding a multi-line string, then an indented statement *)
+Example C09_example :
+  let w := wrun [WStmnt (s2t "def 0 {") true; WIndent; WAdd 3 false;
+                 WStmnt [97; 40; 39; 10; 120; 39; 41; 59]%N true; WAdd 4 false; WStmnt (s2t "end;") true] (winit []) in
+  entries w = [(3%Z, 2, 4); (4%Z, 4, 4)] /\ locate (out w) 4 4 = Some (s2t "end;").
+Proof. vm_compute. split; reflexivity. Qed.
